@@ -45,3 +45,30 @@ Example C06_example :
   any_emits (snd (e_run cfg (e_new 0) [INet good 0])) = true /\
   any_emits (snd (e_run cfg (e_new 0) [INet v2 0])) = false.
 Proof. vm_compute. split; reflexivity. Qed.
+
+(* ---- from set_option to the engine's `security_enabled` (Model/Options.v, Model/EngineCfg.v; both regenerated from
+   core/src/socket/options.rs on every run and proved equal, Proofs/OptionsCheck.v) ---- *)
+From RZ Require Import Model.Options Model.EngineCfg Proofs.OptionsProofs Proofs.EngineCfgProofs.
+(* setting ANY of PLAIN_SERVER / PLAIN_USERNAME / PLAIN_PASSWORD / CURVE_SERVER / CURVE_SECRET_KEY / CURVE_SERVER_KEY
+   successfully makes the derived engine configuration security_enabled ... *)
+Theorem C06_mech_option_enables_security : forall (o : opts) (id : Z) (b : bytes) (o' : opts), In id mech_ids -> apply_opt o id b = inl o' -> security_enabled o' = true.
+Proof. exact mech_option_enables_security. Qed.
+(* ... and NO later history of set_option calls - any ids, any byte strings, accepted or refused - switches it off again *)
+Theorem C06_configured_mechanism_stays : forall (o : opts) (pre : list (Z * bytes)) (id : Z) (b : bytes) (o1 : opts) (post : list (Z * bytes)), In id mech_ids -> apply_opt (fst (apply_all o pre)) id b = inl o1 -> security_enabled (fst (apply_all o1 post)) = true.
+Proof. exact configured_mechanism_stays. Qed.
+(* NOISE_XX is switched by its own flag only: 1 = on, any other 4-byte value = off, nothing else changes *)
+Theorem C06_noise_flag_semantics : forall (o : opts) (b : bytes), match apply_opt o NOISE_XX_ENABLED b with | inl o' => exists v, i32_of b = Some v /\ o' F_noise_xx_options_enabled = VB (v =? 1)%Z /\ (forall g, g <> F_noise_xx_options_enabled -> o' g = o g) | inr e => e = EVal 0 /\ i32_of b = None end.
+Proof. exact noise_flag_semantics. Qed.
+(* composed with C06_no_bypass: an engine built from options in which a PLAIN / CURVE option was ever set emits nothing
+   before its mechanism is done, for every input history *)
+Theorem C06_configured_options_no_bypass : forall (o : opts) (pre : list (Z * bytes)) (id : Z) (b : bytes) (o1 : opts) (post : list (Z * bytes)) cfg is t, In id mech_ids -> apply_opt (fst (apply_all o pre)) id b = inl o1 -> c_sec_enabled cfg = security_enabled (fst (apply_all o1 post)) -> any_emits (snd (e_run cfg (e_new t) is)) = true -> secure_done (g_st (fst (e_run cfg (e_new t) is))).
+Proof. intros o pre id b o1 post cfg is t Hin Ha Hc. apply C06_no_bypass. rewrite Hc. exact (configured_mechanism_stays o pre id b o1 post Hin Ha). Qed.
+Theorem C06_defaults_not_secured : security_enabled default_opts = false /\ cfg_allow_zmtp2 default_opts = true.
+Proof. exact defaults_not_secured. Qed.
+Example C06_options_nonvacuous :
+  match apply_opt default_opts PLAIN_USERNAME [97; 100; 109; 105; 110] with
+  | inl o1 => security_enabled o1 = true /\
+              security_enabled (fst (apply_all o1 [(NOISE_XX_ENABLED, [0; 0; 0; 0]); (PLAIN_SERVER, [0; 0; 0; 0]); (ALLOW_ZMTP2, [1; 0; 0; 0]); (9999%Z, [])])) = true
+  | inr _ => False
+  end.
+Proof. vm_compute. split; reflexivity. Qed.
